@@ -352,3 +352,22 @@ brk("c18-encryptor-stale-kw", ["C18"], (ENC, "        self._kw_alg_convert(kw_al
 brk("c18-yaml-sort-hook", ["C18"], (IO, "            data = json.load(fh)\n        return data", "            data = json.load(fh)\n        return dict(sorted(data.items())) if len(data) > 1 else data"))
 brk("c18-id-based-key", ["C18"], (C, "                    dict_key = key.to_obj()\n                    if not isinstance(dict_key, str):\n                        dict_key = json.dumps(dict_key)", "                    dict_key = key.to_obj()\n                    if not isinstance(dict_key, str):\n                        dict_key = json.dumps(dict_key) if dict_key else str(id(key))"))
 ben("c18-local-dict-cache", ["C18"], (M, "        if isinstance(obj, str):\n            obj = [cls._convert_version_part(part) for part in obj.replace(\"-\", \".\").split(\".\")]", "        if isinstance(obj, str):\n            seen = {}\n            for part in obj.replace(\"-\", \".\").split(\".\"):\n                seen[part] = cls._convert_version_part(part)\n            obj = [cls._convert_version_part(part) for part in obj.replace(\"-\", \".\").split(\".\")]"))
+
+# ------------------------------------------------------------------ C19 templates
+brk("c19-app-index-not-incremented", ["C19"], (ROOT_T, "{%- if application is defined %}\n    {%- set component_index = component_index + 1 %}\n    {%- set app_component_index = component_index %}", "{%- if application is defined %}\n    {%- set app_component_index = component_index %}"))
+brk("c19-top-index-off-by-one", ["C19"], (ROOT_T, "    {%- set top_component_index = component_index %}", "    {%- set top_component_index = component_index + 1 %}"))
+brk("c19-without-top-alias-not-copy", ["C19"], (ROOT_T, "{%- set component_list_without_top = component_list[:] %}", "{%- set component_list_without_top = component_list %}"))
+brk("c19-dependency-zero-missing", ["C19"], (ROOT_T, '        "0": {}\n{%- for component_element in component_list %}', '{%- for component_element in component_list %}'))
+brk("c19-uri-name-mismatch", ["C19"], (ROOT_T, "    '#{{ application['name'] }}': {{ artifacts_folder ~ application['name'] }}.suit\n", "    '#{{ application['name'] }}_app': {{ artifacts_folder ~ application['name'] }}.suit\n"))
+brk("c19-digest-of-other-image", ["C19"], (ROOT_T, "        suit-parameter-uri: '#{{ top['name'] }}'\n        suit-parameter-image-digest:\n          suit-digest-algorithm-id: cose-alg-sha-256\n          suit-digest-bytes:\n            envelope: {{ artifacts_folder ~ top['name'] }}.suit", "        suit-parameter-uri: '#{{ top['name'] }}'\n        suit-parameter-image-digest:\n          suit-digest-algorithm-id: cose-alg-sha-256\n          suit-digest-bytes:\n            envelope: {{ artifacts_folder ~ application['name'] }}.suit"))
+brk("c19-radio-class-from-app-config", ["C19"], (ROOT_T, "{%- set mpi_rad_class_name = sysbuild['config']['SB_CONFIG_SUIT_MPI_RAD_LOCAL_1_CLASS_NAME']|default('nRF54H20_sample_rad') %}", "{%- set mpi_rad_class_name = sysbuild['config']['SB_CONFIG_SUIT_MPI_APP_LOCAL_1_CLASS_NAME']|default('nRF54H20_sample_rad') %}"))
+brk("c19-default-class-typo", ["C19"], (ROOT_T, "|default('nRF54H20_sample_app') %}", "|default('nRF54H20_sample_application') %}"))
+brk("c19-unknown-directive-name", ["C19"], (ROOT_T, "    suit-invoke:\n    - suit-directive-set-component-index: [{{ component_list_without_top|join(',') }}]\n    - suit-condition-dependency-integrity:", "    suit-invoke:\n    - suit-directive-set-component-index: [{{ component_list_without_top|join(',') }}]\n    - suit-condition-dependency-integrety:"))
+brk("c19-seqnum-elif-wrong-var", ["C19"], (ROOT_T, "{%- elif DEFAULT_SEQ_NUM is defined %}\n    suit-manifest-sequence-number: {{ DEFAULT_SEQ_NUM }}", "{%- elif DEFAULT_SEQ_NUM is defined %}\n    suit-manifest-sequence-number: {{ APP_ROOT_SEQ_NUM }}"))
+brk("c19-top-validate-wrong-index", ["C19"], (TOP_T, "    suit-validate:\n    - suit-directive-set-component-index: 2", "    suit-validate:\n    - suit-directive-set-component-index: 3"))
+brk("c19-top-digest-of-secdom", ["C19"], (TOP_T, "    suit-validate:\n    - suit-directive-set-component-index: 2\n    - suit-directive-override-parameters:\n        suit-parameter-image-digest:\n          suit-digest-algorithm-id: cose-alg-sha-256\n          suit-digest-bytes:\n            envelope: {{ artifacts_folder ~ sysctrl['name'] }}.suit", "    suit-validate:\n    - suit-directive-set-component-index: 2\n    - suit-directive-override-parameters:\n        suit-parameter-image-digest:\n          suit-digest-algorithm-id: cose-alg-sha-256\n          suit-digest-bytes:\n            envelope: {{ artifacts_folder ~ secdom['name'] }}.suit"))
+brk("c19-top-integrated-swapped", ["C19"], (TOP_T, "    '#{{ secdom['name'] }}': {{ artifacts_folder ~ secdom['name'] }}.suit\n    '#{{ sysctrl['name'] }}': {{ artifacts_folder ~ sysctrl['name'] }}.suit", "    '#{{ secdom['name'] }}': {{ artifacts_folder ~ sysctrl['name'] }}.suit\n    '#{{ sysctrl['name'] }}': {{ artifacts_folder ~ secdom['name'] }}.suit"))
+brk("c19-glue-version-after-render", ["C19"], (BUILD, "        if arguments.version_file is not None:\n            configuration.update(read_version_file(arguments.version_file))\n        configuration[\"output_envelope\"] = arguments.output_suit\n        configuration[\"artifacts_folder\"] = arguments.artifacts_folder\n        output_suit_content = render_template(arguments.template_suit, configuration)", "        configuration[\"output_envelope\"] = arguments.output_suit\n        configuration[\"artifacts_folder\"] = arguments.artifacts_folder\n        output_suit_content = render_template(arguments.template_suit, configuration)\n        if arguments.version_file is not None:\n            configuration.update(read_version_file(arguments.version_file))"))
+brk("c19-schema-drops-process-dependency", ["C19"], (M, "            suit_directive_process_dependency: SuitRepPolicy,\n", ""))
+ben("c19-comment-and-whitespace", ["C19"], (ROOT_T, "        # Key is the index of suit-components that describe the dependency manifest\n", "        # dependency manifests, by component index\n"))
+ben("c19-extra-set", ["C19"], (ROOT_T, "{%- set component_list = [] %}", "{%- set component_list = [] %}\n{%- set unused_marker = 0 %}"))
